@@ -38,11 +38,11 @@ Notation "'do' x <- r ;; k" := (bind r (fun x => k)) (at level 200, x pattern, r
 (* A schedule with its mutable state.
    DoAt n dur at i st : doAtSchedule{n, duration, doAt} with counter i and start (None = not started)
    Unlim dur fin      : unlimitedSchedule{duration}; fin = Some f once started (finish = start+dur)
-   Comp l la          : compositeSchedule{scheds = l, leftAfter = la} *)
+   Comp l la cs       : compositeSchedule{scheds = l, leftAfter = la, started = cs} *)
 Inductive sched : Type :=
 | DoAt (n : nat) (dur : Z) (at_ : nat -> Z) (i : nat) (st : option Z)
 | Unlim (dur : Z) (fin : option Z)
-| Comp (l : list sched) (la : list Z).
+| Comp (l : list sched) (la : list Z) (cs : bool).
 
 (* ---------------------------------------------------------------- Start *)
 (* doAtSchedule.Start / unlimitedSchedule.Start: MarkStarted panics when already started.
@@ -53,8 +53,8 @@ Fixpoint s_start (t : Z) (s : sched) : res sched :=
   | DoAt _ _ _ _ (Some _) => Panic PStarted
   | Unlim d None => Ok (Unlim d (Some (t + d)))
   | Unlim _ (Some _) => Panic PStarted
-  | Comp [] _ => Panic PIndex
-  | Comp (h :: r) la => do h' <- s_start t h ;; Ok (Comp (h' :: r) la)
+  | Comp [] _ _ => Panic PIndex
+  | Comp (h :: r) la _ => do h' <- s_start t h ;; Ok (Comp (h' :: r) la true)
   end.
 
 (* ---------------------------------------------------------------- Next *)
@@ -74,21 +74,21 @@ Fixpoint s_next (fuel : nat) (now : Z) (s : sched) : res (sched * Z * bool) :=
         let fin' := match fin with Some x => x | None => now + d end in
         if now <? fin' then Ok (Unlim d (Some fin'), now, true)
         else Ok (Unlim d (Some fin'), fin', false)
-    | Comp [] _ => Panic PIndex
-    | Comp (h :: r) la =>
-        (* read lock: tx, ok = s.scheds[0].Next() *)
+    | Comp [] _ _ => Panic PIndex
+    | Comp (h :: r) la _ =>
+        (* read lock: tx, ok = s.scheds[0].Next(); started = true *)
         do x <- s_next f now h ;;
         let '(h', tx, ok) := x in
-        if ok then Ok (Comp (h' :: r) la, tx, true)
+        if ok then Ok (Comp (h' :: r) la true, tx, true)
         else
           match r with
-          | [] => Ok (Comp [h'] la, tx, false)           (* schedsLeft == 1 *)
+          | [] => Ok (Comp [h'] la true, tx, false)      (* schedsLeft == 1 *)
           | h2 :: r2 =>
               (* write lock; sequentially nobody shifted before us: s.startNext(tx) *)
               do h2s <- s_start tx h2 ;;
               do y <- s_next f now h2s ;;
               let '(h2', tx2, ok2) := y in
-              let c' := Comp (h2' :: r2) (tl la) in
+              let c' := Comp (h2' :: r2) (tl la) true in
               if negb ok2 && (1 <? length (h2 :: r2))%nat
               then s_next f now c'                        (* "Okay, just retry." *)
               else Ok (c', tx2, ok2)
@@ -97,7 +97,8 @@ Fixpoint s_next (fuel : nat) (now : Z) (s : sched) : res (sched * Z * bool) :=
   end.
 
 (* ---------------------------------------------------------------- Left *)
-(* composite.go Left(), as the code is now (the final "left + leftAfter" is the code's). *)
+(* composite.go Left() (after fixes 8a0c3cf: unknown remainder => -1, and 593ffeb: no shift
+   before the composite has been started). *)
 Fixpoint s_left (fuel : nat) (now : Z) (s : sched) : res (sched * Z) :=
   match fuel with
   | O => OutOfFuel
@@ -106,18 +107,19 @@ Fixpoint s_left (fuel : nat) (now : Z) (s : sched) : res (sched * Z) :=
     | DoAt n d a i st => Ok (s, Z.of_nat (n - i))        (* max(0, n - i) *)
     | Unlim d None => Ok (s, -1)
     | Unlim d (Some fin) => Ok (s, if now <? fin then -1 else 0)
-    | Comp [] _ => Panic PIndex
-    | Comp (h :: r) la =>
+    | Comp [] _ _ => Panic PIndex
+    | Comp (h :: r) la cs =>
         match la with
         | [] => Panic PIndex
         | leftAfter :: la' =>
             do x <- s_left f now h ;;
             let '(h', lft) := x in
             match r with
-            | [] => Ok (Comp [h'] la, lft)
+            | [] => Ok (Comp [h'] la cs, lft)
             | h2 :: r2 =>
                 if lft =? 0 then
-                  if 0 <=? leftAfter then Ok (Comp (h' :: r) la, leftAfter)
+                  if 0 <=? leftAfter then Ok (Comp (h' :: r) la cs, leftAfter)
+                  else if negb cs then Ok (Comp (h' :: r) la cs, -1)   (* not started: must not shift *)
                   else
                     (* write lock, len unchanged: Next on the head must fail, then shift *)
                     do y <- s_next f now h' ;;
@@ -125,9 +127,9 @@ Fixpoint s_left (fuel : nat) (now : Z) (s : sched) : res (sched * Z) :=
                     if ok then Panic PNotFinished          (* "current schedule is not finished" *)
                     else
                       do h2s <- s_start fin h2 ;;
-                      s_left f now (Comp (h2s :: r2) la')
-                else if lft <? 0 then Ok (Comp (h' :: r) la, -1)
-                else Ok (Comp (h' :: r) la, lft + leftAfter)
+                      s_left f now (Comp (h2s :: r2) la' cs)
+                else if (lft <? 0) || (leftAfter <? 0) then Ok (Comp (h' :: r) la cs, -1)
+                else Ok (Comp (h' :: r) la cs, lft + leftAfter)
             end
         end
     end
@@ -157,7 +159,7 @@ Definition new_composite (fuel : nat) (now : Z) (l : list sched) : res sched :=
   | [] => Ok (once 0)
   | [x] => Ok x
   | _ => do y <- nc_loop fuel now l ;;
-         let '(l', la, _, _) := y in Ok (Comp l' la)
+         let '(l', la, _, _) := y in Ok (Comp l' la false)
   end.
 
 (* Configurations (what the constructors are given) and the tree they build. *)
@@ -200,7 +202,7 @@ Definition instance_step (from to step : nat) (dur : Z) : cfg :=
 (* ---------------------------------------------------------------- sizes (fuel) *)
 Fixpoint size (s : sched) : nat :=
   match s with
-  | Comp l _ => S (fold_right (fun x a => size x + a)%nat 0%nat l)
+  | Comp l _ _ => S (fold_right (fun x a => size x + a)%nat 0%nat l)
   | _ => 1%nat
   end.
 
@@ -223,7 +225,7 @@ Definition leaf_left (now : Z) (x : sched) : Z :=
   | DoAt n _ _ i _ => Z.of_nat (n - i)
   | Unlim _ None => -1
   | Unlim _ (Some fin) => if now <? fin then -1 else 0
-  | Comp _ _ => 0
+  | Comp _ _ _ => 0
   end.
 Definition unknown_part (x : sched) : bool :=
   match x with Unlim _ _ => true | _ => false end.
@@ -252,7 +254,7 @@ Definition f_left (now : Z) (fl : list sched) : res (list sched * Z) :=
 
 Fixpoint flatten (s : sched) : list sched :=
   match s with
-  | Comp l _ => flat_map flatten l
+  | Comp l _ _ => flat_map flatten l
   | _ => [s]
   end.
 Fixpoint flatten_cfg (c : cfg) : list sched :=
@@ -281,7 +283,7 @@ Fixpoint items_from (s : Z) (fl : list sched) : list item * Z :=
       let f0 := match fin with Some f => f | None => s + d end in
       let '(its, f) := items_from f0 r in
       (IW f0 :: its, f)
-  | Comp _ _ :: r => items_from s r
+  | Comp _ _ _ :: r => items_from s r
   end.
 
 (* abstract Next: first token in order; a window yields [now] while open and is left
